@@ -6,15 +6,17 @@ import SeaQ.Props.C06Stmt
 The WHERE / HAVING / ON clause of a statement is (C06Stmt) the expression renderer applied to
 `to_simple_expr` of the held condition, an AND / OR / NOT tree over the member expressions; an
 operator tree over leaves is (C05Stmt) written as the tokens of the abstract printer, which re-parse
-under the engine's table to the tree (C05).  Here the two meet: for every condition whose members are
-primary expressions (columns, values, function calls, sub-queries, CASE, custom text, … — anything
-but a bare binary / NOT expression, which would itself be part of the operator tree),
+under the engine's table to the tree (C05).  Here the two meet, for every condition whose member
+expressions are built from binary operators and NOT over primary expressions (columns, values,
+function calls, sub-queries, CASE, custom text, …):
 
-* `toP` is the AND / OR / NOT tree of the condition with its members numbered in order,
-* `conc_toP`: its concretisation over those members IS `to_simple_expr`,
-* `where_reparses_*`: the clause the statement carries is the keyword followed by the text of a token
-  list that re-parses, under the dialect's operator table, to exactly that tree — the tree whose
-  three-valued meaning C06 proves to be the conjunction of the conditions that were added.
+* `toP` is the operator tree of the whole clause — the AND / OR / NOT tree of the condition with the
+  members' own operator trees (`exP`) below it — its primary expressions numbered in order,
+* `conc_toP`: its concretisation over those primary expressions IS `to_simple_expr`,
+* `where_reparses_*`: when that tree is well-formed for the dialect (`Pratt.wf`, decidable: operators of
+  the dialect, BETWEEN with its AND node, …), the clause the statement carries is the keyword followed by
+  the text of a token list that re-parses, under the dialect's operator table, to exactly that tree —
+  whose AND / OR / NOT part is the tree C06 proves to mean the conjunction of the conditions added.
 -/
 namespace SeaQ.Props.WhereParse
 open SeaQ.Escape SeaQ.Stmt SeaQ.Render
@@ -71,34 +73,66 @@ theorem envOf_ok (ms : List Ex) : ∀ a, leafOK (a % 8) ((envOf ms).leaf a) = tr
       rw [← hc.1]; exact leafOK_cls e hc.2
     · simp only [hc, Bool.false_eq_true, if_false]; exact leafOK_dfl _
 
+/-- the number the abstract tree uses for an operator -/
+def codeOf : Op → Nat
+  | .std n => n
+  | .custom _ => 27
+
+/-- the primary expressions of a member expression, in order -/
+def leavesE : Ex → List Ex
+  | .bin l _ r => leavesE l ++ leavesE r
+  | .unary e => leavesE e
+  | e => [e]
+
+/-- the operator tree of a member expression; its primary expressions are the atoms `i, i+1, ..` -/
+def exP (i : Nat) : Ex → Pratt.Ex
+  | .bin l o r => .bin (exP i l) (codeOf o) (exP (i + (leavesE l).length) r)
+  | .unary e => .un (exP i e)
+  | e => .atom (8 * i + clsOf e)
+
+/-- the operators of a member expression are the numbered ones, or the one custom operator of `cop` -/
+def opsFit (cop : String) : Ex → Bool
+  | .bin l o r => (opOf cop (codeOf o) == o) && opsFit cop l && opsFit cop r
+  | .unary e => opsFit cop e
+  | _ => true
+
 mutual
-  /-- the member expressions of a condition, in order (an empty junction contributes its constant) -/
+  /-- the primary expressions of a condition, in order (an empty junction contributes its constant) -/
   def leavesC : Cond → List Ex
     | .mk _ any items => match items with
       | .nil => [Ex.const ⟨"Bool", .bool (!any)⟩]
       | .consC c r => leavesC c ++ leavesI r
-      | .consE e r => e :: leavesI r
+      | .consE e r => leavesE e ++ leavesI r
   def leavesI : CondItems → List Ex
     | .nil => []
     | .consC c r => leavesC c ++ leavesI r
-    | .consE e r => e :: leavesI r
+    | .consE e r => leavesE e ++ leavesI r
+end
+
+mutual
+  def opsFitC (cop : String) : Cond → Bool
+    | .mk _ _ items => opsFitI cop items
+  def opsFitI (cop : String) : CondItems → Bool
+    | .nil => true
+    | .consC c r => opsFitC cop c && opsFitI cop r
+    | .consE e r => opsFit cop e && opsFitI cop r
 end
 
 def jn (any : Bool) : Nat := if any then 1 else 0
 
 mutual
-  /-- the AND / OR / NOT tree of a condition; its members are the atoms `i, i+1, ..` -/
+  /-- the operator tree of a clause; its primary expressions are the atoms `i, i+1, ..` -/
   def toP (i : Nat) : Cond → Pratt.Ex
     | .mk neg any items =>
       let body := match items with
         | .nil => Pratt.Ex.atom (8 * i)
         | .consC c r => foldP any (i + (leavesC c).length) (toP i c) r
-        | .consE e r => foldP any (i + 1) (.atom (8 * i + clsOf e)) r
+        | .consE e r => foldP any (i + (leavesE e).length) (exP i e) r
       if neg then .un body else body
   def foldP (any : Bool) (i : Nat) (acc : Pratt.Ex) : CondItems → Pratt.Ex
     | .nil => acc
     | .consC c r => foldP any (i + (leavesC c).length) (.bin acc (jn any) (toP i c)) r
-    | .consE e r => foldP any (i + 1) (.bin acc (jn any) (.atom (8 * i + clsOf e))) r
+    | .consE e r => foldP any (i + (leavesE e).length) (.bin acc (jn any) (exP i e)) r
 end
 
 /-- `ρ` puts the members `ms` behind the atoms numbered from `i` -/
@@ -128,33 +162,60 @@ theorem opOf_jn (cop : String) (any : Bool) : opOf cop (jn any) = junc any := by
 
 /-! ### the concretisation of the tree is `to_simple_expr` -/
 
+theorem conc_exP (ρ : Env) : ∀ (e : Ex) (i : Nat), Agree ρ i (leavesE e) → opsFit ρ.cop e = true → conc ρ (exP i e) = e
+  | .bin l o r, i, h, hf => by
+    simp only [opsFit, Bool.and_eq_true, beq_iff_eq] at hf
+    have h' : Agree ρ i (leavesE l ++ leavesE r) := by simpa [leavesE] using h
+    simp only [exP, conc, conc_exP ρ l i h'.left hf.1.2, conc_exP ρ r _ h'.right hf.2, hf.1.1]
+  | .unary e, i, h, hf => by
+    simp only [exP, conc, conc_exP ρ e i (by simpa [leavesE] using h) (by simpa [opsFit] using hf)]
+  | .col c, i, h, _ => by simpa [exP, conc, leavesE] using Agree.head (by simpa [leavesE] using h)
+  | .tuple l, i, h, _ => by simpa [exP, conc, leavesE] using Agree.head (by simpa [leavesE] using h)
+  | .func f dd l, i, h, _ => by simpa [exP, conc, leavesE] using Agree.head (by simpa [leavesE] using h)
+  | .subq o q, i, h, _ => by simpa [exP, conc, leavesE] using Agree.head (by simpa [leavesE] using h)
+  | .value v, i, h, _ => by simpa [exP, conc, leavesE] using Agree.head (by simpa [leavesE] using h)
+  | .values v, i, h, _ => by simpa [exP, conc, leavesE] using Agree.head (by simpa [leavesE] using h)
+  | .cust t, i, h, _ => by simpa [exP, conc, leavesE] using Agree.head (by simpa [leavesE] using h)
+  | .custWith t l, i, h, _ => by simpa [exP, conc, leavesE] using Agree.head (by simpa [leavesE] using h)
+  | .keyword k, i, h, _ => by simpa [exP, conc, leavesE] using Agree.head (by simpa [leavesE] using h)
+  | .asEnum t e, i, h, _ => by simpa [exP, conc, leavesE] using Agree.head (by simpa [leavesE] using h)
+  | .case w e, i, h, _ => by simpa [exP, conc, leavesE] using Agree.head (by simpa [leavesE] using h)
+  | .const v, i, h, _ => by simpa [exP, conc, leavesE] using Agree.head (by simpa [leavesE] using h)
+
 mutual
-theorem conc_toP (ρ : Env) : ∀ (c : Cond) (i : Nat), Agree ρ i (leavesC c) → conc ρ (toP i c) = toSimple c
-  | .mk neg any .nil, i, h => by
+theorem conc_toP (ρ : Env) : ∀ (c : Cond) (i : Nat), Agree ρ i (leavesC c) → opsFitC ρ.cop c = true →
+    conc ρ (toP i c) = toSimple c
+  | .mk neg any .nil, i, h, _ => by
     have hh := Agree.head (by simpa [leavesC] using h) (ρ := ρ) (i := i) (e := Ex.const ⟨"Bool", .bool (!any)⟩) (r := [])
     have hc : clsOf (Ex.const ⟨"Bool", .bool (!any)⟩) = 0 := by simp [clsOf, shapeOf, isEmptyTuple]
     rw [hc, Nat.add_zero] at hh
     cases neg <;> simp [toP, toSimple, conc, hh]
-  | .mk neg any (.consE e r), i, h => by
-    have h' : Agree ρ i (e :: leavesI r) := by simpa [leavesC] using h
-    have hf := conc_foldP ρ any r (i + 1) (.atom (8 * i + clsOf e)) h'.tail
-    cases neg <;> simp [toP, toSimple, conc, hf, h'.head]
-  | .mk neg any (.consC c r), i, h => by
+  | .mk neg any (.consE e r), i, h, hf => by
+    have hf' : opsFit ρ.cop e = true ∧ opsFitI ρ.cop r = true := by simpa [opsFitC, opsFitI] using hf
+    have h' : Agree ρ i (leavesE e ++ leavesI r) := by simpa [leavesC] using h
+    have he := conc_exP ρ e i h'.left hf'.1
+    have hfo := conc_foldP ρ any r (i + (leavesE e).length) (exP i e) h'.right hf'.2
+    cases neg <;> simp [toP, toSimple, conc, hfo, he]
+  | .mk neg any (.consC c r), i, h, hf => by
+    have hf' : opsFitC ρ.cop c = true ∧ opsFitI ρ.cop r = true := by simpa [opsFitC, opsFitI] using hf
     have h' : Agree ρ i (leavesC c ++ leavesI r) := by simpa [leavesC] using h
-    have ihc := conc_toP ρ c i h'.left
-    have hf := conc_foldP ρ any r (i + (leavesC c).length) (toP i c) h'.right
-    cases neg <;> simp [toP, toSimple, conc, hf, ihc]
+    have ihc := conc_toP ρ c i h'.left hf'.1
+    have hfo := conc_foldP ρ any r (i + (leavesC c).length) (toP i c) h'.right hf'.2
+    cases neg <;> simp [toP, toSimple, conc, hfo, ihc]
 theorem conc_foldP (ρ : Env) (any : Bool) : ∀ (r : CondItems) (i : Nat) (acc : Pratt.Ex), Agree ρ i (leavesI r) →
-    conc ρ (foldP any i acc r) = foldS any (conc ρ acc) r
-  | .nil, _, _, _ => by simp [foldP, foldS]
-  | .consE e r, i, acc, h => by
-    have h' : Agree ρ i (e :: leavesI r) := by simpa [leavesI] using h
-    have ih := conc_foldP ρ any r (i + 1) (.bin acc (jn any) (.atom (8 * i + clsOf e))) h'.tail
-    simp only [foldP, foldS, ih, conc, opOf_jn, h'.head]
-  | .consC c r, i, acc, h => by
+    opsFitI ρ.cop r = true → conc ρ (foldP any i acc r) = foldS any (conc ρ acc) r
+  | .nil, _, _, _, _ => by simp [foldP, foldS]
+  | .consE e r, i, acc, h, hf => by
+    have hf' : opsFit ρ.cop e = true ∧ opsFitI ρ.cop r = true := by simpa [opsFitI] using hf
+    have h' : Agree ρ i (leavesE e ++ leavesI r) := by simpa [leavesI] using h
+    have he := conc_exP ρ e i h'.left hf'.1
+    have ih := conc_foldP ρ any r (i + (leavesE e).length) (.bin acc (jn any) (exP i e)) h'.right hf'.2
+    simp only [foldP, foldS, ih, conc, opOf_jn, he]
+  | .consC c r, i, acc, h, hf => by
+    have hf' : opsFitC ρ.cop c = true ∧ opsFitI ρ.cop r = true := by simpa [opsFitI] using hf
     have h' : Agree ρ i (leavesC c ++ leavesI r) := by simpa [leavesI] using h
-    have ihc := conc_toP ρ c i h'.left
-    have ih := conc_foldP ρ any r (i + (leavesC c).length) (.bin acc (jn any) (toP i c)) h'.right
+    have ihc := conc_toP ρ c i h'.left hf'.1
+    have ih := conc_foldP ρ any r (i + (leavesC c).length) (.bin acc (jn any) (toP i c)) h'.right hf'.2
     simp only [foldP, foldS, ih, conc, opOf_jn, ihc]
 end
 
@@ -165,122 +226,78 @@ theorem envOf_agree (ms : List Ex) (hl : ∀ e ∈ ms, clsOf e ≤ 5) : Agree (e
   have h2 : (8 * (0 + j) + clsOf ms[j]) % 8 = clsOf ms[j] := by omega
   simp only [envOf, h1, h2, List.getElem?_eq_getElem hj, beq_self_eq_true, hk, decide_true, Bool.and_self, if_true]
 
-/-! ### the tree is in the fragment and well-formed -/
-
-mutual
-theorem inFrag_toP (ops : List Nat) (h0 : 0 ∈ ops) (h1 : 1 ∈ ops) : ∀ (c : Cond) (i : Nat), inFrag ops (toP i c) = true
-  | .mk neg any .nil, i => by cases neg <;> simp [toP, inFrag]
-  | .mk neg any (.consE e r), i => by
-    have := inFrag_foldP ops h0 h1 any r (i + 1) (.atom (8 * i + clsOf e)) (by simp [inFrag])
-    cases neg <;> simp [toP, inFrag, this]
-  | .mk neg any (.consC c r), i => by
-    have := inFrag_foldP ops h0 h1 any r (i + (leavesC c).length) (toP i c) (inFrag_toP ops h0 h1 c i)
-    cases neg <;> simp [toP, inFrag, this]
-theorem inFrag_foldP (ops : List Nat) (h0 : 0 ∈ ops) (h1 : 1 ∈ ops) (any : Bool) : ∀ (r : CondItems) (i : Nat) (acc : Pratt.Ex),
-    inFrag ops acc = true → inFrag ops (foldP any i acc r) = true
-  | .nil, _, _, h => by simpa [foldP] using h
-  | .consE e r, i, acc, h => by
-    have hj : jn any ∈ ops := by cases any <;> simpa [jn]
-    exact inFrag_foldP ops h0 h1 any r _ _ (by simp [inFrag, h, hj])
-  | .consC c r, i, acc, h => by
-    have hj : jn any ∈ ops := by cases any <;> simpa [jn]
-    exact inFrag_foldP ops h0 h1 any r _ _ (by simp [inFrag, h, hj, inFrag_toP ops h0 h1 c i])
-end
-
-/-- what `wf` asks of the two junction operators: in the table, stand-alone infix, no ternary form -/
-def juncOK (t : Pratt.Tbl) (ops : List Nat) : Bool :=
-  ops.contains 0 && ops.contains 1 && t.infx 0 && t.infx 1 && t.mix 0 == none && t.mix 1 == none
-
-theorem wf_bin_junc (t : Pratt.Tbl) (ops : List Nat) (hj : juncOK t ops = true) (any : Bool) (l r : Pratt.Ex)
-    (hl : Pratt.wf t ops l = true) (hr : Pratt.wf t ops r = true) : Pratt.wf t ops (.bin l (jn any) r) = true := by
-  simp only [juncOK, Bool.and_eq_true, beq_iff_eq] at hj
-  obtain ⟨⟨⟨⟨⟨c0, c1⟩, i0⟩, i1⟩, m0⟩, m1⟩ := hj
-  have hms : Pratt.isMixShape t (jn any) r = false := by
-    cases any <;> cases r <;> simp [Pratt.isMixShape, jn, m0, m1]
-  have c0' : 0 ∈ ops := by simpa using c0
-  have c1' : 1 ∈ ops := by simpa using c1
-  cases any
-  · have h0 : Pratt.isMixShape t 0 r = false := by simpa [jn] using hms
-    simp [Pratt.wf, jn, c0', i0, m0, hl, hr, h0]
-  · have h1 : Pratt.isMixShape t 1 r = false := by simpa [jn] using hms
-    simp [Pratt.wf, jn, c1', i1, m1, hl, hr, h1]
-
-mutual
-theorem wf_toP (t : Pratt.Tbl) (ops : List Nat) (hj : juncOK t ops = true) : ∀ (c : Cond) (i : Nat), Pratt.wf t ops (toP i c) = true
-  | .mk neg any .nil, i => by cases neg <;> simp [toP, Pratt.wf]
-  | .mk neg any (.consE e r), i => by
-    have := wf_foldP t ops hj any r (i + 1) (.atom (8 * i + clsOf e)) (by simp [Pratt.wf])
-    cases neg <;> simp [toP, Pratt.wf, this]
-  | .mk neg any (.consC c r), i => by
-    have := wf_foldP t ops hj any r (i + (leavesC c).length) (toP i c) (wf_toP t ops hj c i)
-    cases neg <;> simp [toP, Pratt.wf, this]
-theorem wf_foldP (t : Pratt.Tbl) (ops : List Nat) (hj : juncOK t ops = true) (any : Bool) : ∀ (r : CondItems) (i : Nat) (acc : Pratt.Ex),
-    Pratt.wf t ops acc = true → Pratt.wf t ops (foldP any i acc r) = true
-  | .nil, _, _, h => by simpa [foldP] using h
-  | .consE e r, i, acc, h => wf_foldP t ops hj any r _ _ (wf_bin_junc t ops hj any _ _ h (by simp [Pratt.wf]))
-  | .consC c r, i, acc, h => wf_foldP t ops hj any r _ _ (wf_bin_junc t ops hj any _ _ h (wf_toP t ops hj c i))
-end
-
 /-! ## the property theorems -/
 
-theorem juncOK_sqlite : juncOK Dialects.sqlite Gen.Policy.sqliteOps = true := by decide
-theorem juncOK_postgres : juncOK Dialects.postgres Gen.Policy.postgresOps = true := by decide
-theorem juncOK_mysql : juncOK Dialects.mysql Gen.Policy.mysqlOps = true := by decide
+/-- the environment: the primary expressions of the clause behind their atoms; `cop` is the text of the custom
+operator the clause uses, if it uses one -/
+def envFor (cop : String) (c : Cond) : Env := { envOf (leavesC c) with cop := cop }
 
-/-- the generic statement: given C05's round trip for the dialect, the clause re-parses to the condition's tree -/
-theorem where_reparses (d : Backend) (kw : String) (c : Cond) (hl : ∀ e ∈ leavesC c, clsOf e ≤ 5)
-    (hj : juncOK (tblOf d) (opsOf d) = true)
+/-- the generic statement: given C05's round trip for the dialect, the clause re-parses to its operator tree -/
+theorem where_reparses (d : Backend) (kw cop : String) (c : Cond) (hl : ∀ e ∈ leavesC c, clsOf e ≤ 5)
+    (hops : opsFitC cop c = true)
+    (hw : Pratt.wf (tblOf d) (opsOf d) (toP 0 c) = true) (hf : inFrag (opsOf d) (toP 0 c) = true)
     (round : ∀ pe, Pratt.wf (tblOf d) (opsOf d) pe = true →
       ∃ f, Pratt.parseE (tblOf d) f 0 (Pratt.pr (pol d) pe) = some (pe, [])) :
-    ∃ (ρ : Env) (ts : List Tok) (f : Nat),
-      (∀ a, leafOK (a % 8) (ρ.leaf a) = true) ∧
-      conc ρ (toP 0 c) = toSimple c ∧
-      canon (rHolder d kw (.cond c)) = canon ([S " ", S kw, S " "] ++ toks d ρ ts) ∧
+    ∃ (ts : List Tok) (f : Nat),
+      conc (envFor cop c) (toP 0 c) = toSimple c ∧
+      canon (rHolder d kw (.cond c)) = canon ([S " ", S kw, S " "] ++ toks d (envFor cop c) ts) ∧
       Pratt.parseE (tblOf d) f 0 ts = some (toP 0 c, []) := by
-  have hj' := hj
-  simp only [juncOK, Bool.and_eq_true, beq_iff_eq, List.contains_iff_mem] at hj'
-  have h0 : 0 ∈ opsOf d := hj'.1.1.1.1.1
-  have h1 : 1 ∈ opsOf d := hj'.1.1.1.1.2
-  let ρ := envOf (leavesC c)
-  have hρ := envOf_ok (leavesC c)
-  have hconc : conc ρ (toP 0 c) = toSimple c := conc_toP ρ c 0 (envOf_agree _ hl)
-  obtain ⟨f, hp⟩ := round (toP 0 c) (wf_toP _ _ hj c 0)
-  refine ⟨ρ, _, f, hρ, hconc, ?_, hp⟩
-  have hs := stmt_prints_as_pratt d ρ hρ (toP 0 c) (inFrag_toP _ h0 h1 c 0)
+  have hρ : ∀ a, leafOK (a % 8) ((envFor cop c).leaf a) = true := envOf_ok (leavesC c)
+  have hag : Agree (envFor cop c) 0 (leavesC c) := envOf_agree _ hl
+  have hconc : conc (envFor cop c) (toP 0 c) = toSimple c := conc_toP _ c 0 hag hops
+  obtain ⟨f, hp⟩ := round (toP 0 c) hw
+  refine ⟨_, f, hconc, ?_, hp⟩
+  have hs := stmt_prints_as_pratt d (envFor cop c) hρ (toP 0 c) hf
   rw [hconc] at hs
   have hr : rHolder d kw (.cond c) = [S " ", S kw, S " "] ++ rEx d (toSimple c) := by
     simp [rHolder, (rCond_eq d c).1]
   rw [hr, canon_append, canon_append, hs]
 
-/-- **SQLite**: the WHERE / HAVING / ON clause of a statement re-parses to the AND / OR / NOT tree of the held condition -/
-theorem where_reparses_sqlite (kw : String) (c : Cond) (hl : ∀ e ∈ leavesC c, clsOf e ≤ 5) :
-    ∃ (ρ : Env) (ts : List Tok) (f : Nat),
-      (∀ a, leafOK (a % 8) (ρ.leaf a) = true) ∧ conc ρ (toP 0 c) = toSimple c ∧
-      canon (rHolder .sqlite kw (.cond c)) = canon ([S " ", S kw, S " "] ++ toks .sqlite ρ ts) ∧
+/-- **SQLite**: the WHERE / HAVING / ON clause of a statement re-parses to its operator tree -/
+theorem where_reparses_sqlite (kw cop : String) (c : Cond) (hl : ∀ e ∈ leavesC c, clsOf e ≤ 5)
+    (hops : opsFitC cop c = true)
+    (hw : Pratt.wf Dialects.sqlite Gen.Policy.sqliteOps (toP 0 c) = true)
+    (hf : inFrag Gen.Policy.sqliteOps (toP 0 c) = true) :
+    ∃ (ts : List Tok) (f : Nat), conc (envFor cop c) (toP 0 c) = toSimple c ∧
+      canon (rHolder .sqlite kw (.cond c)) = canon ([S " ", S kw, S " "] ++ toks .sqlite (envFor cop c) ts) ∧
       Pratt.parseE Dialects.sqlite f 0 ts = some (toP 0 c, []) :=
-  where_reparses .sqlite kw c hl juncOK_sqlite (fun pe hw => C05.sqlite_roundtrip pe hw)
+  where_reparses .sqlite kw cop c hl hops hw hf (fun pe h => C05.sqlite_roundtrip pe h)
 
 /-- **PostgreSQL** -/
-theorem where_reparses_postgres (kw : String) (c : Cond) (hl : ∀ e ∈ leavesC c, clsOf e ≤ 5) :
-    ∃ (ρ : Env) (ts : List Tok) (f : Nat),
-      (∀ a, leafOK (a % 8) (ρ.leaf a) = true) ∧ conc ρ (toP 0 c) = toSimple c ∧
-      canon (rHolder .postgres kw (.cond c)) = canon ([S " ", S kw, S " "] ++ toks .postgres ρ ts) ∧
+theorem where_reparses_postgres (kw cop : String) (c : Cond) (hl : ∀ e ∈ leavesC c, clsOf e ≤ 5)
+    (hops : opsFitC cop c = true)
+    (hw : Pratt.wf Dialects.postgres Gen.Policy.postgresOps (toP 0 c) = true)
+    (hf : inFrag Gen.Policy.postgresOps (toP 0 c) = true) :
+    ∃ (ts : List Tok) (f : Nat), conc (envFor cop c) (toP 0 c) = toSimple c ∧
+      canon (rHolder .postgres kw (.cond c)) = canon ([S " ", S kw, S " "] ++ toks .postgres (envFor cop c) ts) ∧
       Pratt.parseE Dialects.postgres f 0 ts = some (toP 0 c, []) :=
-  where_reparses .postgres kw c hl juncOK_postgres (fun pe hw => C05.postgres_roundtrip pe hw)
+  where_reparses .postgres kw cop c hl hops hw hf (fun pe h => C05.postgres_roundtrip pe h)
 
 /-- **MySQL** -/
-theorem where_reparses_mysql (kw : String) (c : Cond) (hl : ∀ e ∈ leavesC c, clsOf e ≤ 5) :
-    ∃ (ρ : Env) (ts : List Tok) (f : Nat),
-      (∀ a, leafOK (a % 8) (ρ.leaf a) = true) ∧ conc ρ (toP 0 c) = toSimple c ∧
-      canon (rHolder .mysql kw (.cond c)) = canon ([S " ", S kw, S " "] ++ toks .mysql ρ ts) ∧
+theorem where_reparses_mysql (kw cop : String) (c : Cond) (hl : ∀ e ∈ leavesC c, clsOf e ≤ 5)
+    (hops : opsFitC cop c = true)
+    (hw : Pratt.wf Dialects.mysql Gen.Policy.mysqlOps (toP 0 c) = true)
+    (hf : inFrag Gen.Policy.mysqlOps (toP 0 c) = true) :
+    ∃ (ts : List Tok) (f : Nat), conc (envFor cop c) (toP 0 c) = toSimple c ∧
+      canon (rHolder .mysql kw (.cond c)) = canon ([S " ", S kw, S " "] ++ toks .mysql (envFor cop c) ts) ∧
       Pratt.parseE Dialects.mysql f 0 ts = some (toP 0 c, []) :=
-  where_reparses .mysql kw c hl juncOK_mysql (fun pe hw => C05.mysql_roundtrip pe hw)
+  where_reparses .mysql kw cop c hl hops hw hf (fun pe h => C05.mysql_roundtrip pe h)
 
-/-! Non-vacuity: the condition of `Props/C06Stmt.demoC` (`NOT (a OR (b AND x)) AND x`): its members are leaves,
-and its tree. -/
-example : ∀ e ∈ leavesC C06Stmt.demoC, clsOf e ≤ 5 := by decide
-example : toP 0 C06Stmt.demoC =
-    .bin (.un (.bin (.atom 0) 1 (.bin (.atom 8) 0 (.atom 16)))) 0 (.atom 24) := by
-  simp [toP, foldP, C06Stmt.demoC, leavesC, leavesI, clsOf, shapeOf, isEmptyTuple, jn, C06Stmt.cA, C06Stmt.cB, C06Stmt.cX]
+/-! Non-vacuity: `WHERE "a" = 1 AND NOT ("b" LIKE 'x' OR "c" BETWEEN 1 AND 2)`: the hypotheses hold on all three
+dialects, and the tree. -/
+def demoW : Cond :=
+  .mk false false (.consE (.bin (.col (.col "a")) (.std 10) (.value ⟨"Bool", .bool true⟩))
+    (.consC (.mk true true (.consE (.bin (.col (.col "b")) (.std 2) (.value ⟨"Bool", .bool false⟩))
+      (.consE (.bin (.col (.col "c")) (.std 8) (.bin (.value ⟨"Bool", .bool true⟩) (.std 0) (.value ⟨"Bool", .bool false⟩))) .nil))) .nil))
+def demoTree : Pratt.Ex :=
+  .bin (.bin (.atom 0) 10 (.atom 8)) 0 (.un (.bin (.bin (.atom 16) 2 (.atom 24)) 1 (.bin (.atom 32) 8 (.bin (.atom 40) 0 (.atom 48)))))
+theorem demoW_tree : toP 0 demoW = demoTree := by
+  simp [toP, foldP, exP, demoW, demoTree, leavesC, leavesI, leavesE, clsOf, shapeOf, isEmptyTuple, jn, codeOf]
+example : ∀ e ∈ leavesC demoW, clsOf e ≤ 5 := by
+  simp [demoW, leavesC, leavesI, leavesE, clsOf, shapeOf, isEmptyTuple]
+example : opsFitC "" demoW = true := by simp [demoW, opsFitC, opsFitI, opsFit, codeOf, opOf]
+example : Pratt.wf Dialects.sqlite Gen.Policy.sqliteOps demoTree = true ∧ inFrag Gen.Policy.sqliteOps demoTree = true ∧
+    Pratt.wf Dialects.postgres Gen.Policy.postgresOps demoTree = true ∧ inFrag Gen.Policy.postgresOps demoTree = true ∧
+    Pratt.wf Dialects.mysql Gen.Policy.mysqlOps demoTree = true ∧ inFrag Gen.Policy.mysqlOps demoTree = true := by decide
 
 end SeaQ.Props.WhereParse
